@@ -15,6 +15,11 @@ Oracle (the inequalities and identities of the statement; no model code is re-im
   (e) 4/3 pi R_eff^3 == V_form for modes named "equivalent (outer) volume sphere"   monodisperse; V_form is
       V_shell * (V_form/V_shell) from call_Fq
   (f) R_eff (every selectable mode), V_shell, V_form positive and finite
+  (g) dispersed: <V_form>, <V_shell>, <R_eff> lie within [min, max] of the monodisperse values over the mesh
+      points (a weighted mean cannot leave the range of its terms)
+
+Every model also gets meshes that cross the 100-point chunk boundary of the DLL driver (one parameter with 101 and
+120 points, two parameters 11x11 and 15x15), so the kernel is re-entered with pd_start > 0.
 
 The spherically symmetric list is fixed here and cross-checked mechanically (no orientation parameter; 2-D
 kernel identical at four azimuths).
@@ -41,6 +46,7 @@ RULE = ("every have_Fq model x every parameter set with <=D parameters off defau
 SPHERICAL = ["sphere", "core_shell_sphere", "core_multi_shell", "fuzzy_sphere", "onion", "spherical_sld", "vesicle",
              "multilayer_vesicle"]
 QX = [1e-5, 1e-3, 0.1, 1.0, 5.0, 20.0]
+QX_BIG = [1e-3, 5.0]     # chunk-crossing meshes: the mechanism does not depend on q, two points keep superball affordable
 ASSUMPTIONS = [
     "call_Fq is the observation point: (<F>, <F^2>, R_eff, V_shell, V_form/V_shell); V_form = V_shell * ratio",
     "spherically symmetric models (fixed list, mechanically cross-checked): " + ", ".join(SPHERICAL),
@@ -51,15 +57,18 @@ ASSUMPTIONS = [
 BOUNDS = {
     "quick": {"D": 1, "values_per_moved_parameter": 2, "q*size": QX, "modes": "all",
               "dispersity": "gaussian: off (all sets); each single dispersible parameter x (default + every parameter moved); "
-                            "every pair of dispersible parameters (default set)"},
+                            "every pair of dispersible parameters (default set); meshes 101, 120, 11x11, 15x15 (default set)"},
     "thorough": {"D": 2, "values_per_moved_parameter": 2, "q*size": QX, "modes": "all",
-                 "dispersity": "as quick + every pair x every parameter moved + schulz and rectangle for every single and pair"},
+                 "dispersity": "as quick + every pair x every parameter moved + schulz and rectangle for every single and pair; "
+                               "meshes 101, 120, 11x11, 15x15 also with the first dispersible parameter moved"},
 }
 CASE_TIMEOUT = 600
 SCALE, BACKGROUND = 1.7, 0.25
 EQUIV = re.compile(r"^equivalent (outer )?volume sphere$")
 PD = {"n": 5, "width": 0.15, "nsigma": 3.0}
 PD_TYPES = ["gaussian", "schulz", "rectangle"]
+BIG_1 = [101, 120]       # one dispersed parameter: 2 kernel invocations (100 + 1, 100 + 20)
+BIG_2 = [11, 15]         # two dispersed parameters: 121 and 225 mesh points (2 and 3 invocations)
 
 
 def models():
@@ -108,6 +117,13 @@ def cases(ctx):
                     out.append({"model": m, "vary": [], "pd": [p], "pdtype": t})
                 for pair in pairs:
                     out.append({"model": m, "vary": [], "pd": pair, "pdtype": t})
+        # meshes that cross the 100-point chunk boundary of the DLL driver (kernel re-entered with pd_start > 0)
+        for vary in ([[]] if ctx.quick else [[], [pds[0]]]) if pds else []:
+            for n in BIG_1:
+                out.append({"model": m, "vary": vary, "pd": [pds[0]], "npts": [n]})
+            if pairs:
+                for n in BIG_2:
+                    out.append({"model": m, "vary": vary, "pd": pairs[0], "npts": [n, n]})
         if m in SPHERICAL:
             out.append({"model": m, "kind": "symmetry"})
     return out
@@ -149,9 +165,11 @@ def run_case(case, ctx):
     for base in sets:
         mono = not case["pd"]
         pars = dict(base)
-        for p in case["pd"]:
-            pars[p + "_pd"], pars[p + "_pd_n"] = PD["width"], PD["n"]
-            pars[p + "_pd_type"], pars[p + "_pd_nsigma"] = case.get("pdtype", PD_TYPES[0]), PD["nsigma"]
+        npts = case.get("npts") or [PD["n"]] * len(case["pd"])
+        pdtype = case.get("pdtype", PD_TYPES[0])
+        for p, n in zip(case["pd"], npts):
+            pars[p + "_pd"], pars[p + "_pd_n"] = PD["width"], n
+            pars[p + "_pd_type"], pars[p + "_pd_nsigma"] = pdtype, PD["nsigma"]
         desc = "%s pars=%s" % (case["model"], {k: v for k, v in sorted(pars.items())})
         # size from the monodisperse form volume
         try:
@@ -169,18 +187,21 @@ def run_case(case, ctx):
                    % (desc, vs_m, ratio_m), dict(fk, clause="positive", what="form_volume"))
             continue
         size = vform_m ** (1.0 / 3.0)
-        q = np.array(QX) / size
+        qx = QX_BIG if "npts" in case else QX
+        q = np.array(qx) / size
         kq = m.make_kernel([q])
         mode1 = 1 if nmodes else 0
         try:
             F1, F2, reff, vshell, ratio = _fq(kq, pars, mode1)
-            with np.errstate(all="ignore"):
-                Iq = np.array(call_kernel(kq, dict(pars)), float)
+            Iq = None
+            if "npts" not in case:      # chunk-crossing meshes: I(q) itself is C01's subject; skip the second mesh evaluation
+                with np.errstate(all="ignore"):
+                    Iq = np.array(call_kernel(kq, dict(pars)), float)
         except Exception as exc:  # noqa
             r.fail("%s: call_Fq/call_kernel raised %r" % (desc, exc), dict(fk, clause="raises"))
             continue
         ncalls += 2
-        call = "call_Fq(%s, q=%s/%.6g)" % (desc, QX, size)
+        call = "call_Fq(%s, q=%s/%.6g)" % (desc, qx, size)
         if F1 is None:
             r.fail("%s: model declares have_Fq but <F> is None" % call, dict(fk, clause="no-F1"))
             continue
@@ -198,7 +219,7 @@ def run_case(case, ctx):
         if np.any(over):
             j = int(np.argmax(over))
             r.fail("%s: <F>^2 = %r exceeds <F^2> = %r at q*size=%g (ratio-1 = %.3g)\n  <F>=%s\n  <F^2>=%s"
-                   % (call, float(F1[j] ** 2), float(F2[j]), QX[j], F1[j] ** 2 / F2[j] - 1, F1, F2),
+                   % (call, float(F1[j] ** 2), float(F2[j]), qx[j], F1[j] ** 2 / F2[j] - 1, F1, F2),
                    dict(fk, clause="cauchy-schwarz", dispersity="mono" if mono else "pd"), nt=nt)
             bad = True
         # (b) forward limit
@@ -218,21 +239,27 @@ def run_case(case, ctx):
             if np.any(d > tol):
                 j = int(np.argmax(d / tol))
                 r.fail("%s: spherically symmetric, monodisperse: <F>^2 = %r but <F^2> = %r at q*size=%g (ratio-1 = %.3g)"
-                       % (call, float(F1[j] ** 2), float(F2[j]), QX[j], F1[j] ** 2 / F2[j] - 1), dict(fk, clause="spherical-equality"),
+                       % (call, float(F1[j] ** 2), float(F2[j]), qx[j], F1[j] ** 2 / F2[j] - 1), dict(fk, clause="spherical-equality"),
                        nt=nt)
                 bad = True
             else:
                 br.append("spherical-equality-held")
         # (d) intensity from the reported amplitude and volume
         want = pars["scale"] * F2 / vshell + pars["background"]
-        ok, err = refmodel.close(Iq, want, np.abs(pars["scale"] * F2 / vshell) + abs(pars["background"]), rtol=1e-12)
+        ok = True
+        if Iq is not None:
+            ok, err = refmodel.close(Iq, want, np.abs(pars["scale"] * F2 / vshell) + abs(pars["background"]), rtol=1e-12)
         if not ok:
             r.fail("%s: call_kernel = %s but scale*<F^2>/V_shell + background = %s (V_shell=%r)"
                    % (call, Iq, want, vshell), dict(fk, clause="intensity"), nt=nt)
             bad = True
         # (e), (f): every selectable mode
         vform = vshell * ratio
+        other_modes = {}
+        big = "npts" in case        # chunk-crossing meshes: mode 1 only (every further mode costs a full mesh evaluation)
         for mode in range(1, nmodes + 1):
+            if big and mode != mode1:
+                continue
             name = info.radius_effective_modes[mode - 1]
             if mode == mode1:
                 rm, vs, rt = reff, vshell, ratio
@@ -244,6 +271,7 @@ def run_case(case, ctx):
                     bad = True
                     continue
                 ncalls += 1
+                other_modes[mode] = rm
             if not (np.isfinite(rm) and rm > 0):
                 r.fail("call_Fq(%s, radius_effective_mode=%d %r): R_eff = %r is not positive and finite"
                        % (desc, mode, name, rm), dict(fk, clause="positive", what="radius_effective", mode=mode), nt=nt)
@@ -263,6 +291,37 @@ def run_case(case, ctx):
                     bad = True
                 else:
                     r.branch("equivalent-volume-held")
+        # (g) a weighted mean cannot leave the range of its terms
+        if not mono:
+            try:
+                rng, npoints, nvalid = _mesh_range(info, k1, base, case["pd"], npts, pdtype, nmodes,
+                                                    all_modes=not case["vary"])
+            except Exception as exc:  # noqa
+                r.fail("%s: monodisperse call_Fq over the mesh raised %r" % (desc, exc), dict(fk, clause="raises"))
+                bad = True
+                rng, npoints, nvalid = {}, 0, 0
+            ncalls += npoints
+            if npoints > 100:
+                br.append("mesh>100")
+            if nvalid:
+                got = {("V_shell", 0): vshell, ("V_form", 0): vform}
+                got[("R_eff", mode1)] = reff
+                for mode, val in other_modes.items():
+                    got[("R_eff", mode)] = val
+                for key, val in sorted(got.items()):
+                    if key not in rng or (key[0] == "R_eff" and key[1] == 0):
+                        continue
+                    lo, hi = rng[key]
+                    if not (lo * (1 - 1e-12) <= val <= hi * (1 + 1e-12)):
+                        what = key[0] + (" (mode %d %r)" % (key[1], info.radius_effective_modes[key[1] - 1])
+                                         if key[0] == "R_eff" else "")
+                        r.fail("call_Fq(%s): dispersity average <%s> = %r lies outside the range [%r, %r] of the "
+                               "monodisperse values over the %d valid of %d mesh points (ratio to max %.6g)"
+                               % (desc, what, val, lo, hi, nvalid, npoints, val / hi),
+                               dict(fk, clause="mean-in-range", what=key[0]), nt=nt)
+                        bad = True
+                    else:
+                        r.branch("mean-in-range-held")
         if nmodes == 0 and not (np.isfinite(vshell) and vshell > 0 and np.isfinite(vform) and vform > 0):
             r.fail("%s: V_shell = %r, V_form = %r not positive and finite" % (call, vshell, vform),
                    dict(fk, clause="positive", what="volume"), nt=nt)
@@ -274,6 +333,44 @@ def run_case(case, ctx):
                           "R_eff": reff, "V_shell": vshell, "V_form": vform})
     r.trans = max(ncalls, 1)
     return r
+
+
+def _mesh_range(info, k1, base, pd, npts, pdtype, nmodes, all_modes=True):
+    """
+    {(what, mode): (min, max)} of the MONODISPERSE outputs over the mesh points (points the model declares invalid
+    are left out), the number of mesh points and the number of valid ones.  All modes for meshes of <= 25 points
+    about the default parameter set, mode 1 only otherwise.
+    """
+    by_name = {p.name: p for p in info.parameters.call_parameters}
+    grids = []
+    for name, n in zip(pd, npts):
+        x, w = refmodel.par_dist(by_name[name], pdtype, n, PD["width"], PD["nsigma"], base[name])
+        grids.append([float(v) for v in x])
+    npoints = int(np.prod([len(g) for g in grids]))
+    modes = list(range(1, nmodes + 1)) if (npoints <= 25 and all_modes) else ([1] if nmodes else [])
+    acc = {}
+
+    def note(key, v):
+        lo, hi = acc.get(key, (v, v))
+        acc[key] = (min(lo, v), max(hi, v))
+    nvalid = 0
+    point = dict(base)
+    for combo in itertools.product(*grids):
+        for name, v in zip(pd, combo):
+            point[name] = v
+        first = True
+        for mode in (modes or [0]):
+            _, _, rm, vs, rt = _fq(k1, point, mode)
+            if vs * rt == 0.0:
+                break
+            if first:
+                nvalid += 1
+                note(("V_shell", 0), vs)
+                note(("V_form", 0), vs * rt)
+                first = False
+            if mode:
+                note(("R_eff", mode), rm)
+    return acc, npoints, nvalid
 
 
 def _run_symmetry(case, ctx):
@@ -311,5 +408,7 @@ def finish(ctx, report):
     report.require("equivalent-volume-held", 100, "equivalent volume sphere modes")
     report.require("mode-positive", 1000, "effective radius modes")
     report.require("spherical-list-checked", len(SPHERICAL), "spherical list cross-check")
+    report.require("mesh>100", 2 * len(models()), "dispersity meshes beyond the 100-point chunk of the DLL driver")
+    report.require("mean-in-range-held", 1000, "dispersity averages inside the range of their terms")
     report.coverage["spherically_symmetric_models"] = SPHERICAL
     report.coverage["models"] = models()
